@@ -110,6 +110,10 @@ class WriterScn:
                         f.write("one")
                     elif op == "w2":
                         f.write(b"two")
+                    elif op == "we":
+                        f.write("")
+                    elif op == "wb":
+                        f.write(b"")
                     elif op == "flush":
                         f.flush()
                     elif op == "fclose":
@@ -140,10 +144,10 @@ class WriterScn:
         closed = False
         want_items = []
         for (op, res, isclosed), o in zip(log, P["ops"]):
-            if o in ("w1", "w2"):
+            if o in ("w1", "w2", "we", "wb"):
                 exp = "OSError" if closed else "ok"
                 if not closed:
-                    want_items.append("one" if o == "w1" else b"two")
+                    want_items.append({"w1": "one", "w2": b"two", "we": "", "wb": b""}[o])
             elif o == "flush":
                 exp = "ok"
             elif o == "fclose":
@@ -233,11 +237,11 @@ def run(tier: str, only=None) -> int:
             rep.violation(key, msg, {"check": PID, "sub": f"reader-{kind}", "detail": msg})
     rep.sample({"items": ["a", "", "\nb"], "calls": ["readline()", "read(2)", "read(3)", "readline()", "read(1)"]})
     # writer
-    ops = ["w1", "w2", "flush", "fclose", "cclose"]
+    ops = ["w1", "w2", "we", "wb", "flush", "fclose", "cclose"]
     nw = 0
     for n in range(0, 5 if tier == "thorough" else 4):
         for seq in itertools.product(ops, repeat=n):
-            if tier == "quick" and n == 3 and not ("fclose" in seq or "cclose" in seq):
+            if tier == "quick" and n == 3 and not (("fclose" in seq or "cclose" in seq) and ("we" in seq or "w1" in seq) and "wb" not in seq):
                 continue
             for proxyclose in (False, True):
                 nw += 1
